@@ -5,15 +5,17 @@
    Conn.poll runs, on top of the tracker model (Model/Tracker.v = imapserver/tracker.go).
 
    A mailbox is its ordered list of messages (UID, \Deleted flag), uidNext and its
-   MailboxTracker; a connection is (selected mailbox, idling?).  The SessionTracker of
+   MailboxTracker; a connection is (selected mailbox, idling?, selected read-only?: the
+   MailboxView.readOnly that UserSession.Select copies from SelectOptions.ReadOnly, i.e.
+   EXAMINE instead of SELECT).  The SessionTracker of
    connection c has id c.  Every command yields the list of wire events written to the
    issuing connection, in order; connections that are idling are flushed after every step
    (SessionTracker.Idle polls with allowExpunge=true whenever an update is queued; the
    stream a connection receives is the same whether the flush happens at once or when the
    client sends DONE, and the stream is all that is compared or reasoned about).
 
-   Not modelled: message contents, flags other than \Deleted (a FETCH of BODY[] sets \Seen:
-   only the flag update it queues is modelled), LOGIN (all connections are authenticated),
+   Not modelled: message contents, flags other than \Deleted (a FETCH of BODY[] sets \Seen
+   unless the view is read-only: only the flag update it queues is modelled), LOGIN (all connections are authenticated),
    mailbox creation/deletion (the set of mailboxes is fixed), uint32 wrap of UIDs.
    The ghost fields of the tracker model (t_L, s_view: message identities, here = UIDs) are
    carried along and copied into the ghost argument of EvExists; nothing that is compared
@@ -24,7 +26,8 @@ Open Scope N_scope.
 
 Record msg := mkMsg { m_uid : N; m_del : bool }.
 Record mbox := mkMb { mb_msgs : list msg; mb_next : N (* uidNext *); mb_tr : tracker }.
-Record conn := mkConn { c_sel : option N (* index of the selected mailbox *); c_idle : bool }.
+Record conn := mkConn { c_sel : option N (* index of the selected mailbox *); c_idle : bool;
+                        c_ro : bool (* MailboxView.readOnly: opened with EXAMINE *) }.
 Record sys := mkSys { s_mbs : list mbox; s_conns : list conn;
                       s_crash : bool (* a tracker guard panicked (sticky) *) }.
 
@@ -49,7 +52,7 @@ Inductive sop := SDel | SUndel | SKeep.         (* what a STORE does to \Deleted
 
 Inductive cmd :=
 | CAppend (mb : N) (del : bool)
-| CSelect (mb : N)                              (* SELECT / EXAMINE *)
+| CSelect (mb : N) (ro : bool)                  (* SELECT (ro = false) / EXAMINE (ro = true) *)
 | CUnselect | CClose
 | CNoop                                         (* NOOP / CHECK *)
 | CIdle | CDone
@@ -276,13 +279,17 @@ Definition sys_poll (st : sys) (c : N) (allow : bool) : sys * list ev :=
       end
   end.
 
+(* MailboxView.readOnly of the view connection c has (false when it has none) *)
+Definition ro_of (st : sys) (c : N) : bool :=
+  match get (s_conns st) c with Some cn => c_ro cn | None => false end.
+
 (* UserSession.Unselect / Close: SessionTracker.Close *)
 Definition sys_unselect (st : sys) (c : N) : sys :=
   match sel_of st c with
   | None => st
   | Some (m, mb) =>
       let '(mb', cr) := mb_do mb (OClose c) in
-      put_conn (put_mb st m mb' cr) c (mkConn None false)
+      put_conn (put_mb st m mb' cr) c (mkConn None false false)
   end.
 
 Definition done (s : status) : list ev := [EvDone s DNone].
@@ -294,7 +301,8 @@ Definition handle_cmd (st : sys) (c : N) (cm : cmd) : sys * list ev :=
   | CDone => (st, [])                        (* DONE outside IDLE: not generated *)
   | CNoop =>
       let '(st1, evs) := sys_poll st c true in (st1, evs ++ done StOK)
-  | CIdle => (put_conn st c (mkConn (match get (s_conns st) c with Some cn => c_sel cn | None => None end) true),
+  | CIdle => (put_conn st c (mkConn (match get (s_conns st) c with Some cn => c_sel cn | None => None end) true
+                                    (ro_of st c)),
               [EvCont])
   | CAppend m del =>
       match get (s_mbs st) m with
@@ -304,7 +312,7 @@ Definition handle_cmd (st : sys) (c : N) (cm : cmd) : sys * list ev :=
           let '(st1, evs) := sys_poll (put_mb st m mb' cr) c true in
           (st1, evs ++ [EvDone StOK (DAppendUid uid)])
       end
-  | CSelect m =>
+  | CSelect m ro =>
       let '(st1, evs1) := match sel_of st c with
                           | Some _ => (sys_unselect st c, [EvClosed])
                           | None => (st, [])
@@ -313,7 +321,7 @@ Definition handle_cmd (st : sys) (c : N) (cm : cmd) : sys * list ev :=
       | None => (st1, evs1 ++ done StNO)
       | Some mb =>
           let '(mb', cr) := mb_do mb (ONewSession c) in
-          (put_conn (put_mb st1 m mb' cr) c (mkConn (Some m) false),
+          (put_conn (put_mb st1 m mb' cr) c (mkConn (Some m) false ro),
            evs1 ++ [EvExists (len (mb_msgs mb)) (t_L (mb_tr mb)); EvUidNext (mb_next mb)] ++ done StOK)
       end
   | CUnselect =>
@@ -325,14 +333,19 @@ Definition handle_cmd (st : sys) (c : N) (cm : cmd) : sys * list ev :=
       match sel_of st c with
       | None => (st, done StBAD)
       | Some (m, mb) =>
-          let '(mb', cr) := mb_expunge m_del mb in
-          (sys_unselect (put_mb st m mb' cr) c, done StOK)
+          (* Conn.handleUnselect: session.Expunge(w, nil), which MailboxView.Expunge turns into
+             nothing on a read-only view, then session.Unselect *)
+          if ro_of st c then (sys_unselect st c, done StOK)
+          else
+            let '(mb', cr) := mb_expunge m_del mb in
+            (sys_unselect (put_mb st m mb' cr) c, done StOK)
       end
   | CFetch uidk s wflags seen =>
       match sel_of st c with
       | None => (st, done StBAD)
       | Some (m, mb) =>
-          let '(mb', evs, cr) := mb_fetch uidk wflags seen s c mb in
+          (* markSeen: a non-PEEK body section and the view is not read-only *)
+          let '(mb', evs, cr) := mb_fetch uidk wflags (seen && negb (ro_of st c)) s c mb in
           let '(st1, pevs) := sys_poll (put_mb st m mb' cr) c uidk in
           (st1, evs ++ pevs ++ done StOK)
       end
@@ -340,27 +353,36 @@ Definition handle_cmd (st : sys) (c : N) (cm : cmd) : sys * list ev :=
       match sel_of st c with
       | None => (st, done StBAD)
       | Some (m, mb) =>
-          let '(mb1, c1) := mb_store uidk s o c mb in
-          let '(mb2, evs, c2) := if silent then (mb1, [], false)
-                                 else mb_fetch uidk true false s c mb1 in
-          let '(st1, pevs) := sys_poll (put_mb st m mb2 (c1 || c2)) c uidk in
-          (st1, evs ++ pevs ++ done StOK)
+          if ro_of st c then (st, done StNO)      (* errReadOnly: no poll after a failed command *)
+          else
+            let '(mb1, c1) := mb_store uidk s o c mb in
+            let '(mb2, evs, c2) := if silent then (mb1, [], false)
+                                   else mb_fetch uidk true false s c mb1 in
+            let '(st1, pevs) := sys_poll (put_mb st m mb2 (c1 || c2)) c uidk in
+            (st1, evs ++ pevs ++ done StOK)
       end
   | CExpunge =>
       match sel_of st c with
       | None => (st, done StBAD)
       | Some (m, mb) =>
-          let '(mb', cr) := mb_expunge m_del mb in
-          let '(st1, pevs) := sys_poll (put_mb st m mb' cr) c true in
-          (st1, pevs ++ done StOK)
+          (* MailboxView.Expunge(w, nil) on a read-only view: nil, nothing removed; the command
+             completes (poll, OK) *)
+          if ro_of st c then
+            let '(st1, pevs) := sys_poll st c true in (st1, pevs ++ done StOK)
+          else
+            let '(mb', cr) := mb_expunge m_del mb in
+            let '(st1, pevs) := sys_poll (put_mb st m mb' cr) c true in
+            (st1, pevs ++ done StOK)
       end
   | CUidExpunge s =>
       match sel_of st c with
       | None => (st, done StBAD)
       | Some (m, mb) =>
-          let '(mb', cr) := mb_expunge (fun x => m_del x && has (static_for true mb s) (m_uid x)) mb in
-          let '(st1, pevs) := sys_poll (put_mb st m mb' cr) c true in
-          (st1, pevs ++ done StOK)
+          if ro_of st c then (st, done StNO)      (* MailboxView.Expunge(w, uids): errReadOnly *)
+          else
+            let '(mb', cr) := mb_expunge (fun x => m_del x && has (static_for true mb s) (m_uid x)) mb in
+            let '(st1, pevs) := sys_poll (put_mb st m mb' cr) c true in
+            (st1, pevs ++ done StOK)
       end
   | CCopy uidk s d =>
       match sel_of st c with
@@ -382,6 +404,8 @@ Definition handle_cmd (st : sys) (c : N) (cm : cmd) : sys * list ev :=
       match sel_of st c with
       | None => (st, done StBAD)
       | Some (m, mb) =>
+          if ro_of st c then (st, done StNO)      (* UserSession.Move: errReadOnly comes first *)
+          else
           match get (s_mbs st) d with
           | None => (st, done StNO)
           | Some dmb =>
@@ -411,7 +435,7 @@ Definition handle (st : sys) (c : N) (cm : cmd) : sys * list ev :=
   | None => (st, [])
   | Some cn =>
       if c_idle cn then
-        let st0 := put_conn st c (mkConn (c_sel cn) false) in
+        let st0 := put_conn st c (mkConn (c_sel cn) false (c_ro cn)) in
         match cm with
         | CDone => let '(st1, evs) := sys_poll st0 c true in (st1, evs ++ done StOK)
         | _ => (st0, done StBAD)
@@ -445,7 +469,7 @@ Definition sys_step (st : sys) (c : N) (cm : cmd) : sys * list (N * ev) :=
    to start at 1 as well, so that the identity it gives a message is the message's UID. *)
 Definition empty_mbox : mbox := mkMb [] 1 (mkT 0 [] 1 []).
 Definition sys_init (nmb nconn : N) : sys :=
-  mkSys (repeat empty_mbox (N.to_nat nmb)) (repeat (mkConn None false) (N.to_nat nconn)) false.
+  mkSys (repeat empty_mbox (N.to_nat nmb)) (repeat (mkConn None false false) (N.to_nat nconn)) false.
 
 (* a history: who sent what, one command at a time *)
 Fixpoint sys_run (st : sys) (h : list (N * cmd)) : sys * list (N * ev) :=
